@@ -2,3 +2,4 @@ import RSVerif.Properties.C14
 #print axioms RS.select_x86
 #print axioms RS.select_arm
 #print axioms RS.source_target_features_match_their_engine
+#print axioms RS.source_selection_is_model
